@@ -174,13 +174,24 @@ def helper_pairs(ctx, rng):
     step = 9973 if ctx.quick() else 997
     ms_list = list(range(18000, 604800000, step * 50)) + [rng.randrange(18000, 604800000) for _ in range(3000 if ctx.quick() else 40000)]
     ms_list += [264755562, 18000, 604799999, 1000 * 3600 * 24 - 1, 1000 * 3600 * 24, 1000 * 3600 * 24 + 1]
+    # the first and the last 18 s (the leap-second offset) of a UTC week, and both sides of the week boundary
+    ms_list += [0, 1, 17999, 18001, 604782000 - 1, 604782000, 604782000 + 1, 604800000 - 1, 604800000, 604800000 + 1,
+                604817999, 604818000 - 1]
+    ms_list += [rng.randrange(604782000, 604818000) for _ in range(200)] + [rng.randrange(0, 18000) for _ in range(200)]
     n = 0
     for ms in ms_list:
-        t = epoch + datetime.timedelta(weeks=rng.randrange(0, 2400), milliseconds=ms - 18000)
+        # ms = milliseconds since the start of the UTC week + 18 s  (the time of week in the GPS time scale)
+        w = rng.randrange(0, 2400)
+        t = epoch + datetime.timedelta(weeks=w, milliseconds=ms - 18000)
         wno, itow = uh.utc2itow(t)
         n += 1
-        if itow != ms:
-            ctx.fail("utc2itow-wrong-ms", {"op": "HELPER", "fn": "utc2itow", "utc": t.isoformat()}, ms, itow)
+        # the pair must name the instant it was computed from: EPOCH0 + wno weeks + itow ms - 18 s
+        if epoch + datetime.timedelta(weeks=wno, milliseconds=itow - 18000) != t:
+            ctx.fail("utc2itow-names-another-instant", {"op": "HELPER", "fn": "utc2itow", "utc": t.isoformat()},
+                     t.isoformat(), "wno=%d itow=%d" % (wno, itow))
+            break
+        if ms >= 18000 and (itow != ms or wno != w):
+            ctx.fail("utc2itow-wrong-ms", {"op": "HELPER", "fn": "utc2itow", "utc": t.isoformat()}, (w, ms), (wno, itow))
             break
         back = uh.itow2utc(itow)
         if back != t.time():
